@@ -1183,6 +1183,8 @@ func (c *Client) ReadBackoff(err error) <-chan struct{} {
 	case c.readConn != nil:
 		// error came from Persistence ☠️
 		idle = time.Second
+		idle = min(idle, c.ReconnectWaitMax)
+		idle = max(idle, c.ReconnectWaitMin)
 
 	case IsConnectionRefused(err):
 		// documented behaviour
